@@ -4,7 +4,8 @@ From Coq Require Import String.
 From Coq Require Import List Arith ZArith.
 Import ListNotations.
 From YP Require Import Base.Str Term.Term Unify.Unify Lang.Ast Comp.IR Comp.CompileBody Comp.CompileClause Comp.CompileTotal
-  Sem.Res Sem.RefSem Sem.IRSem Sem.ControlCorrect Sem.Machine Sem.ClauseSem Sem.ProgramCorrect Sem.SpecLemmas Sem.Fresh.
+  Sem.Res Sem.RefSem Sem.IRSem Sem.ControlCorrect Sem.Machine Sem.ClauseSem Sem.ProgramCorrect Sem.SpecLemmas Sem.Fresh Sem.SldR Sem.RenameSim Sem.Main.
+From YP Require Import Unify.Rename.
 
 (* the model compiler produces code for every program (it never gets stuck, whatever the nesting) *)
 Theorem C01_compile_program_total : forall p, compile_program p <> None.
@@ -12,8 +13,8 @@ Proof. exact compile_program_total. Qed.
 Print Assumptions C01_compile_program_total.
 
 (* MAIN THEOREM.  For every program P (any number of predicates, arities, clauses; heads with repeated,
-   nested and anonymous variables; bodies over calls, =, \=, true, fail and all control constructs) without
-   a cut inside a condition or under \+ (good_program; the recorded finding KF-C06-1), for every call depth n,
+   nested and anonymous variables; bodies over calls, =, \=, true, fail and all control constructs; good_program only
+   says that the bodies contain no internal $CUTIF marker, which source text cannot produce), for every call depth n,
    every predicate name, every argument list and every state (store of active bindings + next fresh cell):
    running the emitted code of the compiled program (Machine.query: the model of the generated Python -
    nested for-loops over unify()/query(), the doBreak / cutIfN flag protocol, return for cut, variable()
@@ -28,6 +29,31 @@ Theorem C01_compiled_program_computes_reference : forall n p ir,
 Proof. exact machine_computes_clause_semantics. Qed.
 Print Assumptions C01_compiled_program_computes_reference.
 
+(* END-TO-END.  SldR.solveR is SLD resolution in its plainest form: every clause is renamed apart (all its
+   variables get fresh cells), the head is unified with the goal by the engine's unification (a most general
+   unifier: C02), clauses in source order, bodies depth-first and left to right under the textbook control
+   semantics, cut local to the predicate.  For every program,
+   every depth, predicate, argument list and well-formed state: the compiled program's answer sequence and
+   solveR's have the same length and end the same way, and the k-th answers agree on every cell that
+   existed before the query up to an injective renaming p' of the cells created during the query, p' being
+   the identity on the old cells - i.e. the same bindings up to renaming of unbound variables, including the
+   aliasing between them (same_answer). *)
+Theorem C01_compiled_program_is_sld : forall n p ir,
+  compile_program p = Some ir -> good_program p ->
+  forall name args s, wf (sto s) -> inv s -> Forall (bounded (nxt s)) args ->
+  Forall2 (same_answer s) (fst (query n ir name args s)) (fst (solveR n p name args s)) /\
+  snd (query n ir name args s) = snd (solveR n p name args s).
+Proof. exact compiled_program_is_sld. Qed.
+Print Assumptions C01_compiled_program_is_sld.
+
+(* the same between the two references: naming a goal argument versus renaming every variable apart *)
+Theorem C01_naming_equals_renaming_apart : forall n prog name args s,
+  wf (sto s) -> inv s -> Forall (bounded (nxt s)) args ->
+  Forall2 (same_answer s) (fst (solveA n prog name args s)) (fst (solveR n prog name args s)) /\
+  snd (solveA n prog name args s) = snd (solveR n prog name args s).
+Proof. exact naming_equals_renaming_apart. Qed.
+Print Assumptions C01_naming_equals_renaming_apart.
+
 (* The rewriting compiler for clause bodies is correct for every interpretation of the calls and every
    state type: the code emitted for a body yields exactly the answers of the reference control semantics,
    in order, and ends the same way (return <-> cut, exception <-> error). *)
@@ -35,7 +61,7 @@ Theorem C01_body_code_correct : forall (S : Type) (I : str -> list sterm -> S ->
   (J : expr -> S -> list S * bool) (assign : str -> expr -> S -> S),
   (forall f args s, J (query_expr f args) s = I f args s) ->
   forall n b cnt code cnt',
-  comp n b cnt = Some (code, cnt') -> nomark b = true -> noc b = true ->
+  comp n b cnt = Some (code, cnt') -> nomark b = true ->
   forall s, (let '(ys, k) := run_function J assign code s in (ys, fin_of_compl k)) = sem I b s.
 Proof. exact control_correct_function. Qed.
 Print Assumptions C01_body_code_correct.
